@@ -228,7 +228,7 @@ PROPS["C15"] = {
     "theorems": ["Rough.Props.C15.C15_all_start", "Rough.Props.C15.C15_unfixed_witness", "Rough.Props.C15.C15_valid_preconditions"],
     "streams": [{"args": ["startup"], "shards_quick": 6, "shards_thorough": 16, "timeout": 1500}],
     "ops": ["startup"], "trivial": r"^$", "min_nontrivial": 8,
-    "rule": "the real server binary is started for each configuration: the repository's own example.cfg verbatim (ports substituted only if 8686/8000 are taken), a pairwise cover (quick, 11 configurations) / the grid num_workers 1..16 x health_check_port absent/present x 6 combinations of batch_size {1,2,63,64}, fault_percentage {0,1,50}, status_interval {1,10,600}, client_stats off/on+directory, file/ENV source (thorough, 192 configurations). Per configuration: thread names worker-0..worker-(n-1) in /proc before and after the probes, requests from fresh source ports until n distinct classic online keys answered, 20 sequential + 3x4 parallel TCP health connections expecting the exact HTTP response, a burst of 50n+50 connections made pending at once (SIGSTOP/SIGCONT, n <= 4), UDP service afterwards, no 'panicked' in the output, SIGTERM -> exit 0. every configuration is a distinct non-trivial case",
+    "rule": "the real server binary is started for each configuration: the repository's own example.cfg verbatim (ports substituted only if 8686/8000 are taken), a pairwise cover (quick, 11 configurations) / the grid num_workers 1..16 x health_check_port absent/present x 6 combinations of batch_size {1,2,63,64}, fault_percentage {0,1,50}, status_interval {1,10,600}, client_stats off/on+directory, file/ENV source (thorough, 192 configurations). Per configuration: thread names worker-0..worker-(n-1) in /proc before and after the probes, requests from fresh source ports until n distinct classic online keys answered, 20 sequential + 3x4 parallel TCP health connections expecting the exact HTTP response, a burst of 50n+50 connections made pending at once (SIGSTOP/SIGCONT, n <= 4), odd probers (connect-and-close, silent connections held open, half-closing probers that must still get the response, UDP service meanwhile), 28 ticks of steady traffic (3n requests from fresh ports per 110 ms tick, retransmitted if unanswered), UDP service afterwards, no 'panicked' in the output, SIGTERM -> exit 0. every configuration is a distinct non-trivial case",
     "trusted_base": PROC_TB,
     "assumptions": ["PARTIAL: the theorem covers the start-up resource logic (mutex, TCP bind rule, every start order) and the validator-implies-preconditions step; thread timing, accept-queue behaviour and memory use are only sampled by the process runs"],
     "design_ref": "5/C15",
